@@ -365,6 +365,9 @@ class Interp:
     def call_method(self, obj, name, args, kwargs=None):
         kwargs = kwargs or {}
         if isinstance(obj, SObj):
+            ov = obj.f.get("__overrides__")
+            if ov is not None and name in ov:
+                return ov[name](self, obj, *args, **kwargs)
             c, m = self.find_method(obj.cls, name)
             if m is None:
                 raise RaisedEx("AttributeError", f"{obj.cls.name}.{name}")
@@ -909,6 +912,9 @@ class Interp:
         from .tlib import Tensor
 
         if isinstance(o, SObj):
+            ov = o.f.get("__overrides__")
+            if ov is not None and name in ov:
+                return BoundMethod(o, ov[name])
             if name in o.f:
                 return o.f[name]
             if name == "__class__":
